@@ -258,8 +258,10 @@ def _ints(rng, k=None):
 class Spec:
     """cls; make(rng) -> object in a random small state; steps(C, rng) -> list of
     ('notify', what, action, {tag: count}) / ('check', what, fn -> complaint | None)."""
-    def __init__(self, cls, feature, make, steps):
+    def __init__(self, cls, feature, make, steps, names=None, family="feature"):
         self.cls, self.feature, self.make, self.steps = cls, feature, make, steps
+        self.names = names          # explicit persistent names (None: from the class declaration)
+        self.family = family
 
 
 def _set_n(C):
@@ -466,15 +468,26 @@ def build_specs():
 
 
 # --------------------------------------------------------------------------- oracle
-def state(o, depth=0):
+_DECLARED = {}
+
+
+def declared_names(cls):
+    """Persistent trait names of a class, taken from the class declaration (the
+    instance's own trait_names() is part of what is being checked)."""
+    if cls not in _DECLARED:
+        names = []
+        for nm, t in cls.class_traits().items():
+            if nm in ("trait_added", "trait_modified") or t.type == "event" or t.transient is True:
+                continue
+            names.append(nm)
+        _DECLARED[cls] = sorted(names)
+    return _DECLARED[cls]
+
+
+def state(o, depth=0, names=None):
     """Readable persistent state (nested MinTarget by value)."""
     out = {}
-    for nm in sorted(o.trait_names()):
-        if nm in ("trait_added", "trait_modified"):
-            continue
-        t = o.trait(nm)
-        if t is None or t.type in ("event",) or t.transient is True:
-            continue
+    for nm in (names if names is not None else declared_names(type(o))):
         try:
             v = getattr(o, nm)
         except Exception as e:  # noqa: BLE001
@@ -542,10 +555,15 @@ def check_min(ctx, spec, rng, modes):
     del MLOG[:]
     for mode, mclass, fn in modes:
         ctx.count("min_copies")
-        before = state(O)
+        before = state(O, names=spec.names)
 
         def report(complaint, msg, mode=mode, mclass=mclass):
-            ctx.violation("min/%s/%s/%s" % (mclass, complaint, name),
+            if spec.family == "names":
+                # one mechanism per (name pattern, listener class), not per generated class
+                key = "min/%s/%s/%s" % (mclass, complaint.split("/")[0], spec.keyclass)
+            else:
+                key = "min/%s/%s/%s" % (mclass, complaint, name)
+            ctx.violation(key,
                           "%s copy of a %s (only feature: %s) in state %s: %s"
                           % (mode, name, spec.feature, short(before, 120), msg),
                           {"class": name, "feature": spec.feature, "mode": mode, "state": before})
@@ -560,7 +578,7 @@ def check_min(ctx, spec, rng, modes):
             report("class-differs", type(C).__name__)
             continue
         ctx.ev()
-        sc = state(C)
+        sc = state(C, names=spec.names)
         if not same(sc, before):
             bad = [k for k in before if not same(before[k], sc.get(k))]
             report("value-differs/" + (bad[0] if bad else "?"), "original %s, copy %s" % (short(before, 100), short(sc, 100)))
@@ -570,7 +588,7 @@ def check_min(ctx, spec, rng, modes):
         if failed:
             continue
         ctx.ev()
-        after = state(O)
+        after = state(O, names=spec.names)
         if not same(after, before):
             report("original-changed", "original %s -> %s" % (short(before, 100), short(after, 100)))
             continue
@@ -599,27 +617,168 @@ def calibrate_min(specs):
     del MLOG[:]
 
 
+# --------------------------------------------------------------------------- awkward names
+# Trait NAMES are part of the configuration space: HasTraits treats some spellings
+# specially (the `<name>_items` event companions of containers, the trailing-underscore
+# prefix rules, leading underscores, names resembling its own `trait_*` API), and the
+# bookkeeping that decides what is pickled / cloned works on names.  Every name is
+# combined with a value type and a listener flavour (none / declared / dynamic): a
+# listener gives the object an *instance* trait of that name.
+AWKWARD_NAMES = ("plain", "line_items", "n_items", "items", "_items", "_hidden", "trait_x", "name_",
+                 "trait_items", "x_items_")
+NAME_FLAVOURS = ("none", "observe", "otc", "depends_on", "prop_observe", "dyn_observe", "dyn_otc")
+
+
+def _name_class(clsname, name, kind, flavour, paired):
+    """Build one module-level (picklable) class; returns (cls, tag expected on a change or None)."""
+    ns = {"__module__": __name__, "__qualname__": clsname}
+    if paired:
+        # `xs` and `xs_items` both declared: the container gives up its own items event
+        ns["xs"] = List(Int, items=False)
+    ns[name] = List(Int) if kind == "L" else Int(1)
+    tag = None
+    if flavour == "observe":
+        tag = "o:" + name
+
+        @observe(name + (".items" if kind == "L" else ""))
+        def _o(self, event):
+            _log(self, "o:" + name)
+        ns["_o"] = _o
+    elif flavour == "otc":
+        tag = "l:" + name
+
+        @on_trait_change(name + ("[]" if kind == "L" else ""))
+        def _l(self):
+            _log(self, "l:" + name)
+        ns["_l"] = _l
+    elif flavour in ("depends_on", "prop_observe"):
+        if flavour == "depends_on":
+            ns["p"] = Property(depends_on=name + ("[]" if kind == "L" else ""))
+        else:
+            ns["p"] = Property(observe=name + (".items" if kind == "L" else ""))
+
+        @cached_property
+        def _get_p(self):
+            v = getattr(self, name)
+            return sum(v) if kind == "L" else v * 2
+        ns["_get_p"] = _get_p
+    cls = type(HasTraits)(clsname, (HasTraits,), ns)
+    globals()[clsname] = cls
+    return cls, tag
+
+
+def _dyn(owner, tag):
+    def h(*args):
+        _log(owner, tag)
+    return h
+
+
+def build_name_specs():
+    S = []
+    skipped = 0
+    combos = [(nm, False) for nm in AWKWARD_NAMES] + [("xs_items", True)]
+    for name, paired in combos:
+        for kind in ("L", "I"):
+            for flavour in NAME_FLAVOURS:
+                clsname = "Nm_%s_%s_%s%s" % ("".join(ch if ch.isalnum() else "U" for ch in name), kind, flavour,
+                                             "_paired" if paired else "")
+                try:
+                    cls, tag = _name_class(clsname, name, kind, flavour, paired)
+                except Exception:  # noqa: BLE001 - this spelling cannot be declared with this listener
+                    skipped += 1
+                    continue
+
+                def make(rng, cls=cls, name=name, kind=kind, flavour=flavour, paired=paired):
+                    o = cls()
+                    setattr(o, name, [rng.randint(0, 9) for _ in range(rng.randint(1, 3))] if kind == "L"
+                            else rng.randint(2, 50))
+                    if paired:
+                        o.xs = [rng.randint(0, 9)]
+                    if flavour == "dyn_observe":
+                        o.observe(_dyn(o, "dyn"), name + (".items" if kind == "L" else ""))
+                    elif flavour == "dyn_otc":
+                        o.on_trait_change(_dyn(o, "dyn"), name + ("[]" if kind == "L" else ""))
+                    return o
+
+                def steps(C, rng, name=name, kind=kind, flavour=flavour, tag=tag):
+                    exp = {tag: 1} if tag else {}
+                    out = []
+                    if kind == "L":
+                        change = lambda: getattr(C, name).append(4)                   # noqa: E731
+                        out.append(("check", "append(bad)", _rejects(lambda: getattr(C, name).append("bad"))))
+                        want = lambda: sum(getattr(C, name))                          # noqa: E731
+                    else:
+                        change = lambda: setattr(C, name, getattr(C, name) + 1)       # noqa: E731
+                        out.append(("check", "set(bad)", _rejects(lambda: setattr(C, name, "bad"))))
+                        want = lambda: getattr(C, name) * 2                           # noqa: E731
+                    if flavour in ("depends_on", "prop_observe"):
+                        out.append(("check", "p fresh", _fresh_prop(C, change, want)))
+                        out.append(("check", "p fresh again", _fresh_prop(C, change, want)))
+                    else:
+                        out.append(("notify", "change", change, exp))
+                    return out
+                names = [name] + (["xs"] if paired else [])
+                spec = Spec(cls, "trait named %r (%s), listener: %s" % (name, "List(Int)" if kind == "L" else "Int",
+                                                                        flavour), make, steps, names, "names")
+                spec.keyclass = "name:%s,listener:%s" % (
+                    "plain" if name == "plain" else "*_items" if name.endswith("_items") else
+                    "items" if name == "items" else "*_" if name.endswith("_") else
+                    "_*" if name.startswith("_") else "trait_*" if name.startswith("trait_") else "other",
+                    "none" if flavour == "none" else "dynamic" if flavour.startswith("dyn") else "declared")
+                # the combination must be usable at all on a never-copied object
+                try:
+                    import random
+                    probe_rng = random.Random(0)
+                    o = make(probe_rng)
+                    got = []
+
+                    class _C:
+                        def ev(self, n=1):
+                            pass
+
+                        def count(self, *a):
+                            pass
+                    run_steps(_C(), spec, "fresh", "fresh", make(probe_rng), o, probe_rng, lambda c, m: got.append(c))
+                    # (a never-copied object legitimately hears its own dynamic listener)
+                    if [c for c in got if c != "unexpected-event/dyn"]:
+                        raise RuntimeError(got)
+                except Exception:  # noqa: BLE001
+                    skipped += 1
+                    continue
+                S.append(spec)
+    del MLOG[:]
+    return S, skipped
+
+
 def run_min(ctx):
     specs = build_specs()
     calibrate_min(specs)
+    name_specs, skipped = build_name_specs()
     ctx.note("min_family_classes", len(specs))
-    rounds = ctx.scale(12, 240)
+    ctx.note("min_name_classes", len(name_specs))
+    ctx.note("min_name_combinations_unusable", skipped)
     batch = 0
-    for si, spec in enumerate(specs):
-        for r0 in range(0, rounds, 12):
-            batch += 1
-            if not ctx.mine(batch):
-                continue
-            if not ctx.begin("min:%s:%d" % (spec.cls.__name__, r0), {"feature": spec.feature}):
-                continue
-            try:
-                for r in range(r0, min(rounds, r0 + 12)):
-                    rng = ctx.rng("min", spec.cls.__name__, r)
-                    check_min(ctx, spec, rng, COPY_MODES)
-                    ctx.count("min_states")
-                if r0 == 0 and si % 9 == 0:
-                    ctx.sample({"sub": "minimal-family", "class": spec.cls.__name__, "feature": spec.feature,
-                                "modes": [m[0] for m in COPY_MODES]})
-            finally:
-                del MLOG[:]
-                ctx.end()
+    for family, fspecs, rounds, per in (("feature", specs, ctx.scale(12, 240), 12),
+                                        ("names", name_specs, ctx.scale(4, 60), 4)):
+        for si, spec in enumerate(fspecs):
+            for r0 in range(0, rounds, per):
+                batch += 1
+                if not ctx.mine(batch):
+                    continue
+                if not ctx.begin("min:%s:%d" % (spec.cls.__name__, r0), {"feature": spec.feature}):
+                    continue
+                try:
+                    for r in range(r0, min(rounds, r0 + per)):
+                        rng = ctx.rng("min", spec.cls.__name__, r)
+                        check_min(ctx, spec, rng, COPY_MODES)
+                        ctx.count("min_states")
+                        if family == "names":
+                            ctx.count("min_name_states")
+                    if family == "names" and r0 == 0:
+                        ctx.count("min_name_classes")
+                    if r0 == 0 and si % 29 == 0:
+                        ctx.sample({"sub": "minimal-family/" + family, "class": spec.cls.__name__,
+                                    "feature": spec.feature, "modes": [m[0] for m in COPY_MODES]})
+                finally:
+                    del MLOG[:]
+                    ctx.end()
